@@ -1693,7 +1693,7 @@ func (schema *Schema) visitJSONString(settings *schemaValidationSettings, value 
 				length++
 			}
 		}
-		if minLength != 0 && length < int64(minLength) {
+		if minLength != 0 && uint64(length) < minLength {
 			if settings.failfast {
 				return errSchema
 			}
@@ -1709,7 +1709,7 @@ func (schema *Schema) visitJSONString(settings *schemaValidationSettings, value 
 			}
 			me = append(me, err)
 		}
-		if maxLength != nil && length > int64(*maxLength) {
+		if maxLength != nil && uint64(length) > *maxLength {
 			if settings.failfast {
 				return errSchema
 			}
